@@ -147,7 +147,10 @@ def rb(r, n):
 
 def gen_mutable_pair(r, flavour):
     """(write Cap, read Cap) of one mutable object; flavour in SSK, MDMF, DIR2, DIR2-MDMF."""
-    wk, fp = rb(r, 16), rb(r, 32)
+    return mutable_pair_from_keys(rb(r, 16), rb(r, 32), flavour)
+
+
+def mutable_pair_from_keys(wk, fp, flavour):
     rk = ssk_readkey(wk)
     wpre, rpre, isdir = {
         "SSK": (b"URI:SSK:", b"URI:SSK-RO:", False),
@@ -192,6 +195,12 @@ def gen_other(r):
     return Cap(s, "other", label="future")
 
 
+def unique_other(r):
+    """An unknown cap that is not a substring of anything else in the case (used in write-cap slots)."""
+    c = gen_other(r)
+    return Cap(c.s + b"-" + b32(rb(r, 10)), "other", label=c.label)
+
+
 def gen_bad(r):
     kind = r.choice(["bad-w", "bad-m", "bad-n"])
     pre = {"bad-w": [b"URI:SSK:", b"URI:MDMF:", b"URI:DIR2:", b"URI:DIR2-MDMF:"],
@@ -206,8 +215,8 @@ def gen_bad(r):
 
 def gen_fut(r):
     if r.random() < 0.5:
-        return Cap(b"x-tahoe-future-test-writeable:" + b32(rb(r, 4)), "futw", label="future-test-writeable")
-    return Cap(b"x-tahoe-future-test-mutable:" + b32(rb(r, 4)), "futm", label="future-test-mutable")
+        return Cap(b"x-tahoe-future-test-writeable:" + b32(rb(r, 8)), "futw", label="future-test-writeable")
+    return Cap(b"x-tahoe-future-test-mutable:" + b32(rb(r, 8)), "futm", label="future-test-mutable")
 
 
 class CapTable(object):
@@ -225,15 +234,38 @@ class CapTable(object):
             self.add(c)
         return pair
 
-    def coq(self):
-        items = ["(%s, %s)" % (T.bytes_(c.s), c.coq_class()) for c in self.by_s.values() if c.cls != "other"]
+    def coq(self, used=None):
+        """The model's classify table; `used`: cap strings (possibly prefixed) that occur in the case --
+        the table is then restricted to them, their canonical forms and their read caps."""
+        caps = [c for c in self.by_s.values() if c.cls != "other"]
+        if used is not None:
+            want = set()
+            for u in used:
+                if not u:
+                    continue
+                for pre in (IMM, RO, b""):
+                    if u.startswith(pre):
+                        want.add(u[len(pre):])
+                        break
+                want.add(u)
+            grow = True
+            while grow:
+                grow = False
+                for c in caps:
+                    if c.s in want:
+                        for x in (c.canon, c.ro):
+                            if x is not None and x not in want:
+                                want.add(x)
+                                grow = True
+            caps = [c for c in caps if c.s in want]
+        items = ["(%s, %s)" % (T.bytes_(c.s), c.coq_class()) for c in caps]
         return "(classify_tbl [%s])" % "; ".join(items)
 
     def classify(self, s):
         return self.by_s.get(s)
 
 
-def gen_child_caps(r, tbl, allow_odd=True):
+def gen_child_caps(r, tbl, allow_odd=True, known_writecap_in_ro_slot=False):
     """One (writecap, readcap) argument pair for create_from_cap, drawn over
     every cap kind.  Returns (w, r, label)."""
     roll = r.random()
@@ -260,18 +292,29 @@ def gen_child_caps(r, tbl, allow_odd=True):
         pre = r.choice([b"", b"", RO, IMM])
         return None, pre + c.s, "unknown-ro" + ("" if not pre else "-" + pre.decode().strip("."))
     if roll < 0.78:
-        cw = tbl.add(gen_other(r))
+        cw = tbl.add(unique_other(r))
         cr = tbl.add(gen_other(r))
         pre = r.choice([b"", b"", RO])
         return cw.s, pre + cr.s, "unknown-rw+ro"
-    if roll < 0.84:
+    if roll < 0.81:
         c = tbl.add(gen_other(r))
         pre = r.choice([b"", RO, IMM])
         return pre + c.s, None, "unknown-single-rw-slot"
+    if roll < 0.84:
+        # unknown write cap next to a KNOWN cap in the read-cap slot
+        cw = tbl.add(unique_other(r))
+        if r.random() < 0.6:
+            ci = tbl.add(gen_imm(r, flav_i))
+            return cw.s, r.choice([ci.s, RO + ci.s]), "unknown-rw+known-imm-ro"
+        kw, kr = tbl.add_pair(gen_mutable_pair(r, flav_m))
+        if known_writecap_in_ro_slot and r.random() < 0.5:
+            return cw.s, kw.s, "unknown-rw+known-WRITECAP-in-ro-slot"
+        return cw.s, r.choice([kr.s, RO + kr.s]), "unknown-rw+known-readcap-ro"
     if roll < 0.90:
         c = tbl.add(gen_fut(r))
+        c2 = tbl.add(gen_fut(r))
         pre = r.choice([b"", RO, IMM])
-        return r.choice([(None, pre + c.s), (c.s, pre + c.s), (c.s, None)]) + ("future-test",)
+        return r.choice([(None, pre + c.s), (c.s, pre + c2.s), (c.s, None)]) + ("future-test",)
     if roll < 0.94 and allow_odd:
         c = tbl.add(gen_bad(r))
         o = tbl.add(gen_other(r))
@@ -288,13 +331,35 @@ def gen_child_caps(r, tbl, allow_odd=True):
     return r.choice([(cw.s + ext, None), (None, cr.s + ext)]) + ("mdmf-hints",)
 
 
+def gen_outside_caps(r, tbl):
+    """Caps outside the round-trip well-formedness: trailing spaces, nested or bare alleged prefixes."""
+    c = tbl.add(gen_other(r))
+    kind = r.choice(["trailing-space", "nested-prefix", "bare-prefix", "space-only"])
+    if kind == "trailing-space":
+        return r.choice([(None, c.s + b" "), (None, RO + c.s + b"  "), (c.s + b" ", c.s)]) + ("outside:trailing-space",)
+    if kind == "nested-prefix":
+        return None, r.choice([RO + RO, RO + IMM, IMM + RO]) + c.s, "outside:nested-prefix"
+    if kind == "bare-prefix":
+        return None, r.choice([RO, IMM]), "outside:bare-prefix"
+    return r.choice([(None, b" "), (b"  ", None)]) + ("outside:space-only",)
+
+
+def strip_prefix_expected(ro, deep_immutable):
+    """Own reading of unknown.strip_prefix_for_ro."""
+    if ro.startswith(IMM):
+        return ro[len(IMM):] if deep_immutable else ro
+    if ro.startswith(RO):
+        return ro[len(RO):]
+    return ro
+
+
 # --------------------------------------------------------------------------
 # names and metadata
 # --------------------------------------------------------------------------
 NFC_CHANGING = ["é", "Å", "Å", "ọ̈", "ẛ̣", "Ω", "豈", "ñ",
                 "क़", "̈́", "가", "q̣̇", "Ą́"]
 PLAIN = ["a", "b", "file", "dir", "A", "z", "0", " ", "a b", "a/b", "é", "Å", "Ω", "中文", "\U0001f600",
-         "", ".", "..", "x" * 40, "ñ", "con:,", "7:abcdefg,"]
+         "", ".", "..", "x" * 40, "ñ", "con:,", "7:abcdefg,", "\x00", "a\x00", "nul\x00\x00", ",", ":", "3:abc", "\n", "tab\t "]
 
 
 def gen_name(r):
@@ -340,7 +405,7 @@ def gen_metadata(r, ascii_only=False, allow_tahoe=True):
     return md
 
 
-def jval(x):
+def jval(x, sort=False):
     """Python JSON value -> Coq jval term (ints only; floats are not rendered)."""
     if x is None:
         return "JNull"
@@ -353,9 +418,9 @@ def jval(x):
     if isinstance(x, str):
         return "(JStr %s)" % T.bytes_(x.encode("utf-8"))
     if isinstance(x, (list, tuple)):
-        return "(JArr [%s])" % "; ".join(jval(v) for v in x)
+        return "(JArr [%s])" % "; ".join(jval(v, sort) for v in x)
     if isinstance(x, dict):
-        return "(JObj %s)" % jobj(x)
+        return "(JObj %s)" % jobj(x, sort)
     raise TypeError("not renderable as jval: %r" % (x,))
 
 
@@ -363,7 +428,7 @@ def jobj(d, sort=False):
     items = list(d.items())
     if sort:
         items.sort(key=lambda kv: kv[0].encode("utf-8"))
-    return "[%s]" % "; ".join("(%s, %s)" % (T.bytes_(k.encode("utf-8")), jval(v)) for k, v in items)
+    return "[%s]" % "; ".join("(%s, %s)" % (T.bytes_(k.encode("utf-8")), jval(v, sort)) for k, v in items)
 
 
 def has_float(x):
@@ -426,9 +491,10 @@ def expected_allowed_in_immutable(obs):
 # --------------------------------------------------------------------------
 # the in-memory grid
 # --------------------------------------------------------------------------
-def make_nodemaker(seed_rng):
+def make_nodemaker(seed_rng, store=None):
     """A real NodeMaker whose mutable/immutable file nodes keep their contents
-    in a dict (storage index -> bytes).  Returns (nodemaker, store)."""
+    in a dict (storage index -> bytes).  Returns (nodemaker, store).  Passing an
+    existing store gives a second, independent client of the same grid."""
     from twisted.internet import defer
     from allmydata import uri
     from allmydata.immutable.filenode import ImmutableFileNode
@@ -437,7 +503,8 @@ def make_nodemaker(seed_rng):
     from allmydata.interfaces import IMutableUploadable
     from allmydata.nodemaker import NodeMaker
 
-    store = {}
+    if store is None:
+        store = {}
 
     class MemMutableFileNode(MutableFileNode):
         def download_best_version(self, progress=None):
